@@ -13,7 +13,7 @@ Tr == Traces[tid]
 
 Init == /\ tid \in 1..Len(Traces) /\ l = 1
         /\ s = [NewLive(Traces[tid].mode, Traces[tid].transient, Traces[tid].overflow, Traces[tid].H) EXCEPT !.cur = Traces[tid].cur0]
-        /\ rscr = InitScreen /\ tasks = <<>> /\ faulted = FALSE /\ verdict = "ok"
+        /\ rscr = [InitScreen EXCEPT !.tw = Traces[tid].W] /\ tasks = <<>> /\ faulted = FALSE /\ verdict = "ok"
 
 \* Progress: the frame is the list of visible tasks (one row each); an empty table is one blank row
 Visible(ts) == SelectSeq(ts, LAMBDA t : t.visible)
